@@ -73,7 +73,10 @@ theorem verifySignatureC_ok {W : World} {k : PubKey} {alg : Cbor} {sig : Option 
       | bytes b =>
         simp only [Option.some.injEq, Cbor.bytes.injEq, exists_eq_left']
         rw [runM_sigVerifyM_bind, runM_liftE]
-        cases h2 : W.sigVerify k s b data <;> simp [sigResult]
+        cases h2 : W.sigVerify k s b data with
+        | valid => simp [sigResult]
+        | invalid => simp [sigResult]
+        | raised c => rcases sigSeen_raised_cases s c with h | h <;> simp [sigResult, h]
       | uint _ => simp
       | nint _ => simp
       | text _ => simp
